@@ -408,7 +408,7 @@ Proof. vm_compute. split; reflexivity. Qed.
    kind 2 (Log): the domain is one NewLog returns, and log_case_ok / log_case_borderline.
    The predicates of kinds 1 and 2 are unfolded in C17_check_meaning_scales. *)
 From Coq Require Import Qround.
-From MM Require Import Proofs.CheckBase Proofs.CheckC17Base Proofs.CheckC17Parse Proofs.CheckC17Lin Proofs.CheckC17Log Proofs.CheckC17Win Proofs.CheckC17WinLog Proofs.CheckC17WinCase Proofs.CheckC17.
+From MM Require Import Proofs.CheckBase Proofs.CheckC17Base Proofs.CheckC17Parse Proofs.CheckC17Lin Proofs.CheckC17Log Proofs.CheckC17Win Proofs.CheckC17WinLog Proofs.CheckC17WinCase Proofs.CheckC17WinCaseLog Proofs.CheckC17.
 Section CheckSound.
 Local Open Scope Z_scope.
 Local Open Scope Q_scope.
@@ -714,7 +714,10 @@ Print Assumptions C17_check_meaning_scales.
    Nice on the observed new domain - is inside the window.  Log: the admissible set takes each undecided (N_border) slack decision of
    log_exps either way and treats candidate minor ticks within 1e-12 of a domain end as optional; when no
    slack decision is undecided (le_amb = false) Nice, TicksAtLevel/CountTicks at levels >= 0 and Ticks
-   whose levels are >= 0 (no minor ticks involved) that pass the admissible comparison pass the exact one. *)
+   whose levels are >= 0 (no minor ticks involved) that pass the admissible comparison pass the exact one;
+   for a whole Log case: judge_log returns code 1 ONLY IF a slack decision of the given or of the observed
+   new domain is undecided or minor ticks are involved (Ticks(o) at a level <= 0, a recorded level below 0,
+   Ticks after Nice at a level below 0). *)
 Theorem C17_check_borderline_window :
   (forall base eb mn mx tolv lv, lin_amb_level base eb mn mx false (lv_level lv) = false ->
      lin_level_adm base eb mn mx tolv lv = true -> lin_level_exact base eb mn mx tolv lv = true) /\
@@ -759,7 +762,15 @@ Theorem C17_check_borderline_window :
      (forall l, lin_amb_level base eb a b false l = false) ->
      lin_ticks_adm o base eb a b tolv (lin_search o base eb a b false) major None = true ->
      exists l, lin_search o base eb a b false = FL_ok l /\ (1 <= o_max o)%Z /\
-       close_list tolv (lin_ticks_at base eb a b false l) major = true).
+       close_list tolv (lin_ticks_at base eb a b false l) major = true) /\
+  (* a whole Log case: no borderline verdict without an undecided slack decision or minor ticks *)
+  (forall c t p d, judge_log c = verdict 1 t p d ->
+     exists ao bo, so_nmin (sc_ob c) = XFin ao /\ so_nmax (sc_ob c) = XFin bo /\
+     let base := sc_base c in let mn := sc_mn c in let mx := sc_mx c in let ob := sc_ob c in
+     ~ (le_amb (log_e base mn mx) = false /\ le_amb (log_e base ao bo) = false /\
+        (forall l, log_search (sc_o c) (log_e base mn mx) false = FL_ok l -> (1 <= l)%Z) /\
+        (forall lv, In lv (so_levels ob) -> (0 <= lv_level lv)%Z) /\
+        (forall l, log_search (so_no ob) (log_e base ao bo) false = FL_ok l -> (0 <= l)%Z))).
 Proof. exact borderline_window. Qed.
 Print Assumptions C17_check_borderline_window.
 
